@@ -695,7 +695,7 @@ func intrRWRLock(c *icall) {
 	rw := c.st.load(p).(Tuple)
 	c.st.store(p.Field(rwFieldReaderCount), setAtomicInt32(rw[rwFieldReaderCount], rwReaders(rw)+1))
 	if c.st.race != nil {
-		c.st.race.onAcquire(c.g, keyOf(p))
+		c.st.race.onAcquireRead(c.g, keyOf(p))
 	}
 	c.ret(nil)
 }
